@@ -106,12 +106,16 @@ func D(kv ...interface{}) string {
 	return b.String()
 }
 
+var cleaner = strings.NewReplacer(" ", "_", "\n", "\\n", "\r", "\\r", "\t", "\\t")
+
 func clean(s string) string {
 	if s == "" {
 		return "-"
 	}
-	r := strings.NewReplacer(" ", "_", "\n", "\\n", "\r", "\\r", "\t", "\\t")
-	return r.Replace(s)
+	if strings.IndexAny(s, " \n\r\t") < 0 {
+		return s
+	}
+	return cleaner.Replace(s)
 }
 
 func h64(s string) uint64 {
